@@ -349,7 +349,7 @@ impl Engine for C05 {
     }
     fn budget_s(&self, tier: Tier) -> u64 {
         match tier {
-            Tier::Quick => 50,
+            Tier::Quick => 150,
             Tier::Thorough => 1500,
         }
     }
